@@ -534,7 +534,7 @@ inline KV genOptionsCase()
         s.R0         = s.Rmax * rpick({1e-8, 1e-5, 1e-3, 0.1});
         // the smallest grids that still give two levels, and a little above
         s.nr_exp     = rweighted({1, 2, 6, 3}) + 1; // 1..4
-        s.ntheta_exp = rpick({-1, -1, 2, 3, 4});
+        s.ntheta_exp = rpick({-1, -1, 2, 3, 4, 6, 7}); // also far more angular than radial intervals (the automatic line split never fires)
         s.div        = rweighted({6, 2});
         s.aniso      = rweighted({8, 2, 1, 1});
         if (rint(0, 5) == 0) // refinement radius anywhere, also outside the domain (command-line default 0)
@@ -580,7 +580,7 @@ inline KV genOptionsCase()
         };
         static const std::vector<Opt> opts = {
             {"--nr_exp", {"2", "3", "4"}, {"0", "-3", "x", "1e3", ""}},
-            {"--ntheta_exp", {"-1", "3", "4"}, {"abc", "0"}},
+            {"--ntheta_exp", {"-1", "3", "4", "6", "7"}, {"abc", "0"}},
             {"--anisotropic_factor", {"0", "1", "2"}, {"-1", "9", "q"}},
             {"--divideBy2", {"0", "1"}, {"-1", "z"}},
             {"--R0", {"1e-5", "0.1", "1e-8"}, {"0", "-1", "2.0", "r"}},
